@@ -88,6 +88,8 @@ def owner_class(c):
 
 
 def verify_function(key, theories=()) -> FunctionResult:
+    ops.reset_per_function()
+    heapops._card_fns.clear()
     c = decl.CONTRACTS[key]
     res = FunctionResult(key)
     t0 = time.time()
@@ -239,6 +241,8 @@ def _verify_case(c, fnode, case, label, res, lemma_body=None):
 
 
 def verify_lemma(name) -> FunctionResult:
+    ops.reset_per_function()
+    heapops._card_fns.clear()
     lm = decl.LEMMAS[name]
     res = FunctionResult(f"lemma:{name}")
     t0 = time.time()
